@@ -455,7 +455,7 @@ fn iter_packed_values(raw: u16, format: DeltaFormat, n: usize) -> impl Iterator<
 
         let val = if sign {
             // it is 2023 and I am googling to remember how twos compliment works
-            -((((!val) & mask) + 1) as i8)
+            ((((!val) & mask) + 1) as i8).wrapping_neg()
         } else {
             val as i8
         };
